@@ -24,6 +24,8 @@
 #include <AIToolbox/POMDP/Algorithms/PBVI.hpp>
 #include <AIToolbox/POMDP/Algorithms/PERSEUS.hpp>
 #include <AIToolbox/POMDP/Algorithms/QMDP.hpp>
+#include <AIToolbox/POMDP/SparseModel.hpp>
+#include <AIToolbox/MDP/SparseModel.hpp>
 
 using namespace verif;
 namespace P = AIToolbox::POMDP;
@@ -115,28 +117,56 @@ static PomdpTables tigerTables() {
 
 static const char * kSolvers[] = {"IncrementalPruning", "Witness", "LinearSupport", "PBVI", "PERSEUS", "QMDP"};
 
-static void runSolver(Rng & rng, int which, const PomdpTables & pt, unsigned h, double tol = 0.0) {
-    Model model = toDense(pt);
-    AIToolbox::Seeder::setRootSeed((unsigned)rng.below(1u << 30));
-    P::ValueFunction vf;
+using SparseModel = P::SparseModel<AIToolbox::MDP::SparseModel>;
+
+template <class M>
+static P::ValueFunction solveWith(Rng & rng, int which, const M & model, const PomdpTables & pt, unsigned h, double tol) {
     switch (which) {
-        case 0: { P::IncrementalPruning s(h, tol); vf = std::get<1>(s(model)); break; }
-        case 1: { P::Witness s(h, tol); vf = std::get<1>(s(model)); break; }
-        case 2: { P::LinearSupport s(h, tol); vf = std::get<1>(s(model)); break; }
+        case 0: { P::IncrementalPruning s(h, tol); return std::get<1>(s(model)); }
+        case 1: { P::Witness s(h, tol); return std::get<1>(s(model)); }
+        case 2: { P::LinearSupport s(h, tol); return std::get<1>(s(model)); }
         case 3: {
             P::PBVI s(8, h, tol);
-            if (rng.coin()) { auto bl = someBeliefs(rng, pt.S, pt.S + 1 + rng.below(6)); vf = std::get<1>(s(model, bl)); }
-            else vf = std::get<1>(s(model));
-            break;
+            if (rng.coin()) { auto bl = someBeliefs(rng, pt.S, pt.S + 1 + rng.below(6)); return std::get<1>(s(model, bl)); }
+            return std::get<1>(s(model));
         }
         case 4: {
             P::PERSEUS s(6 + rng.below(6), h, tol);
             double minR = pt.R.minCoeff();
-            vf = std::get<1>(s(model, minR)); break;
+            return std::get<1>(s(model, minR));
         }
-        default: { P::QMDP s(h, tol); vf = std::get<1>(s(model)); break; }
+        default: { P::QMDP s(h, tol); return std::get<1>(s(model)); }
     }
+}
+
+static void runSolver(Rng & rng, int which, const PomdpTables & pt, unsigned h, double tol = 0.0, bool sparse = false) {
+    Model model = toDense(pt);
+    AIToolbox::Seeder::setRootSeed((unsigned)rng.below(1u << 30));
+    P::ValueFunction vf;
+    if (sparse) { SparseModel sm(model); vf = solveWith(rng, which, sm, pt, h, tol); std::printf("#stat sparse 1\n"); }
+    else vf = solveWith(rng, which, model, pt, h, tol);
     emitVF(kSolvers[which], h, pt, vf, someBeliefs(rng, pt.S, pt.S + 4));
+}
+
+// "ugly" tables: non-dyadic probabilities (k/n rounded to double, rows summing to 1 only up to rounding), discount 0.95 / 0.9,
+// rewards in tenths; optionally one observation that is possible only with probability 2^-24 (< the Projecter's 1e-6 cut)
+static PomdpTables uglyPomdp(Rng & rng, size_t S, size_t A, size_t O) {
+    PomdpTables p; p.S = S; p.A = A; p.O = O; p.discount = rng.coin() ? 0.95 : 0.9;
+    p.T.assign(A, AIToolbox::Matrix2D::Zero(S, S)); p.R = AIToolbox::Matrix2D::Zero(S, A); p.Ob.assign(A, AIToolbox::Matrix2D::Zero(S, O));
+    auto row = [&](size_t n) { std::vector<double> w(n); double t = 0; for (auto & x : w) { x = (double)rng.below(4); t += x; }
+                               if (t == 0) { w[rng.below(n)] = 1; t = 1; } for (auto & x : w) x /= t; return w; };
+    for (size_t a = 0; a < A; ++a) for (size_t s = 0; s < S; ++s) {
+        auto r = row(S); for (size_t s1 = 0; s1 < S; ++s1) p.T[a](s, s1) = r[s1];
+        auto q = row(O); for (size_t o = 0; o < O; ++o) p.Ob[a](s, o) = q[o];
+        p.R(s, a) = (double)rng.range(-50, 50) / 10.0;
+    }
+    if (O >= 2 && rng.coin()) {                     // a faint observation: same tiny mass from every state, under one action
+        size_t a = rng.below(A), of = rng.below(O), og = (of + 1) % O;
+        const double eps = std::ldexp(1.0, -24);
+        for (size_t s = 0; s < S; ++s) { for (size_t o = 0; o < O; ++o) p.Ob[a](s, o) = 0.0; p.Ob[a](s, of) = eps; p.Ob[a](s, og) = 1.0 - eps; }
+        std::printf("#stat faint_observation 1\n");
+    }
+    return p;
 }
 
 // ---------------------------------------------------------------- kernels that permute whole entries
@@ -237,9 +267,14 @@ void verif::verif_case(Rng & rng, long idx, const std::string & tier) {
     unsigned h = 1 + (unsigned)rng.below(4);
     if (which == 0 && rng.coin(1, 4)) O = 4 + rng.below(4);                   // longer merge schedules for IncrementalPruning
     if (O >= 4) { h = std::min(h, 2u); S = std::min<size_t>(S, 3); }
-    auto pt = randomPomdp(rng, S, A, O);
+    bool ugly = rng.coin(1, 5), sparse = rng.coin(1, 5);
+    // LinearSupport enumerates polytope vertices naively: keep its instances small (its cost is not this property's subject)
+    if (which == 2) { if (ugly) { S = std::min<size_t>(S, 3); h = std::min(h, 2u); } else if (S == 4) h = std::min(h, 3u); }
+    auto pt = ugly ? uglyPomdp(rng, S, A, O) : randomPomdp(rng, S, A, O);
+    if (ugly) std::printf("#stat ugly 1\n");
     double tol = (rng.coin(1, 8)) ? 0.5 : 0.0;                                // early stop on tolerance: shorter value function
-    runSolver(rng, which, pt, h, tol);
+    if (std::getenv("VERIF_DEBUG")) std::fprintf(stderr, "case %ld: %s S=%zu A=%zu O=%zu h=%u ugly=%d sparse=%d tol=%g\n", idx, kSolvers[which], S, A, O, h, (int)ugly, (int)sparse, tol);
+    runSolver(rng, which, pt, h, tol, sparse);
     if (r % 10 == 0) { emitXD(rng); emitPR(rng); emitCS(rng); emitPJ(rng); }
 }
 
